@@ -323,6 +323,19 @@ Theorem C02_step_squashed_returned : forall legacy aa fd prev car fo, tmpl_dict 
          node_get (fo_mol fo) (sg x) (S "fragid") = Some (VList l) -> In (VInt (nk mn)) l ->
          exists a, In a (node_keys frag) /\ QuotientDefs.rho (fo_m2 fo) (cf0 a) = x).
 Proof. exact step_squashed_returned. Qed.
+(** in terms of the returned coarse-node graphs: the 'graph' attribute the step returns for coarse node mn contains, for EVERY
+    template atom of mn's fragment, an atom whose fragid lists mn's key and whose mapping lists (fragname, template atom) - also
+    when atoms were squashed (with C02_step_frag_exact: that graph holds exactly the fine nodes recording mn's key) *)
+Theorem C02_step_squashed_graphs : forall legacy aa fd prev car fo, tmpl_dict fd -> wf_attrs fd -> NumTotal.hnum_dict fd ->
+  resolve_step_full legacy aa fd prev car = Ok fo ->
+  (forall es, base_edges (fo_meta fo) = Ok es -> wf_edges es) ->
+  (aa = true -> forall g1, car = Some g1 -> RebuildWf.all_no_rs g1) ->
+  forall pre mn post fv name frag g, fo_meta fo = (pre ++ mn :: post)%list ->
+  aget (S "fragname") (na mn) = Some fv -> lookup_fragment fd fv = Some (name, frag) -> In (nk mn, g) (fo_fgs fo) ->
+  forall n, In n frag -> exists y l lm, In y (node_keys g) /\
+    node_get (fo_mol fo) y (S "fragid") = Some (VList l) /\ In (VInt (nk mn)) l /\
+    node_get (fo_mol fo) y (S "mapping") = Some (VList lm) /\ In (mapping_entry name (nk n)) lm.
+Proof. exact step_squashed_graphs. Qed.
 (** the converse used there (Resolve/CopyOnto.v): for distinct coarse keys every atom of the disconnected / bonded molecule that
     records exactly [key of mn] is the copy of a template atom of mn's fragment (last clause; the other clauses are those of
     C02_disconnected_edges_copy / C02_bonded_edges_copy for the same map cf) *)
@@ -472,6 +485,7 @@ Print Assumptions C02_squash_keeps_dicts.
 Print Assumptions C02_merged_lists_from.
 Print Assumptions C02_step_squashed_returned.
 Print Assumptions C02_bonded_copy_onto.
+Print Assumptions C02_step_squashed_graphs.
 Print Assumptions C02_frag_exact.
 Print Assumptions C02_frag_cover.
 Print Assumptions C02_fragid_singleton.
